@@ -161,6 +161,7 @@ def ical_lines(rng, uid, token, kind=None, rich=True, summary=None):
             L.append("COMMENT:a first thought")
         if rng.random() < 0.2 and kind == "VEVENT" and form != "date":
             L.append("RRULE:" + rng.choice(["FREQ=DAILY;COUNT=3", "FREQ=WEEKLY;BYDAY=MO,WE;COUNT=5", "FREQ=MONTHLY;INTERVAL=2;COUNT=4"]))
+            override = form == "utc" and uid is not None and rng.random() < 0.6
             if form == "utc" and rng.random() < 0.5:
                 L.append("EXDATE:20300105T100000Z")
                 L.append("EXDATE:20300102T100000Z")
@@ -174,6 +175,10 @@ def ical_lines(rng, uid, token, kind=None, rich=True, summary=None):
         if rng.random() < 0.2 and kind in ("VEVENT", "VTODO"):
             L += ["BEGIN:VALARM", "ACTION:DISPLAY", "DESCRIPTION:" + esc_text(rand_text(rng, 1)), "TRIGGER:-PT15M", "END:VALARM"]
     L.append("END:" + kind)
+    if rich and locals().get("override"):
+        # an overridden instance of the recurring event: same UID, identified by RECURRENCE-ID
+        start = [l for l in L if l.startswith("DTSTART:")][0][8:]
+        L += ["BEGIN:VEVENT", "UID:" + esc_text(uid), "DTSTAMP:" + _dt(rng) + "Z", "RECURRENCE-ID:" + start, "DTSTART:" + start[:9] + "235900Z", "SUMMARY:moved instance", "END:VEVENT"]
     L.append("END:VCALENDAR")
     return L
 
